@@ -74,12 +74,36 @@ func viaRecord(text, parent string) (out string) {
 			out = fmt.Sprintf("<panic: %v>", r)
 		}
 	}()
-	rec := fmt.Sprintf("LOCUS       TESTLOC %15d bp    DNA     linear   UNK 01-JAN-2000\nDEFINITION  location test.\nFEATURES             Location/Qualifiers\n     misc_feature    %s\n                     /note=\"x\"\nORIGIN\n%s//\n", len(parent), text, originBlock(strings.ToLower(parent)))
-	s := genbank.Parse([]byte(rec))
+	s := genbank.Parse([]byte(recText(text, parent)))
 	if len(s.Features) != 1 {
 		return fmt.Sprintf("<%d features parsed>", len(s.Features))
 	}
 	return strings.ToUpper(s.Features[0].GetSequence())
+}
+
+func recText(text, parent string) string {
+	return fmt.Sprintf("LOCUS       TESTLOC %15d bp    DNA     linear   UNK 01-JAN-2000\nDEFINITION  location test.\nFEATURES             Location/Qualifiers\n     misc_feature    %s\n                     /note=\"x\"\nORIGIN\n%s//\n", len(parent), text, originBlock(strings.ToLower(parent)))
+}
+
+// viaMulti: the same feature in every record of a multi-record file, each record with its own sequence
+func viaMulti(text string, parents []string) (out []string) {
+	defer func() {
+		if r := recover(); r != nil {
+			out = []string{fmt.Sprintf("<panic: %v>", r)}
+		}
+	}()
+	var file strings.Builder
+	for _, p := range parents {
+		file.WriteString(recText(text, p))
+	}
+	for _, s := range genbank.ParseMulti([]byte(file.String())) {
+		if len(s.Features) != 1 {
+			out = append(out, fmt.Sprintf("<%d features parsed>", len(s.Features)))
+			continue
+		}
+		out = append(out, strings.ToUpper(s.Features[0].GetSequence()))
+	}
+	return out
 }
 
 func printed(loc poly.Location) (out string) {
@@ -129,6 +153,14 @@ func c02Replay(c json.RawMessage) Verdict {
 		}
 		if got := seqOf(loc, pb[0]); got != pb[1] {
 			return bad("location %s on parent %s: assembled structure gives %q, INSDC reading is %q", cs.Text, pb[0], got, pb[1])
+		}
+	}
+	// the records of a multi-record file each have their own sequence: a feature reports the bases of ITS record
+	if cs.P2 != cs.P1 {
+		want := []string{cs.B1, cs.B2, cs.B1}
+		got := viaMulti(cs.Text, []string{cs.P1, cs.P2, cs.P1})
+		if strings.Join(got, "|") != strings.Join(want, "|") {
+			return bad("location %s in the three records (sequences %s, %s, %s) of one file read by ParseMulti: the features report %q, INSDC reading is %q", cs.Text, cs.P1, cs.P2, cs.P1, got, want)
 		}
 	}
 	// a feature (already linked to one sequence) added to ANOTHER sequence reports that sequence's bases
